@@ -3,7 +3,7 @@
 (*                                                                                                        *)
 (* N replicas of the application are fed one shared sequence of blocks.  A replica is a record            *)
 (* [h, s, res]: number of blocks applied, state (as the digest of all module stores + bank) and the       *)
-(* results of the transactions of its last block.  The application is specified as a FUNCTION of          *)
+(* results of the transactions and hooks of its last block (codes, response data, gas AND emitted events).   The application is specified as a FUNCTION of          *)
 (* (state, block): Step(s, b, e) with an environment argument e that stands for everything that is NOT    *)
 (* in the block or the state - the process, goroutine scheduling, Go's per-run map iteration order, the   *)
 (* wall clock.  Determinism = Step does not depend on e.  The specification is thin on purpose: its job   *)
